@@ -132,7 +132,7 @@ pub fn run(tier: &str) -> Result<Report, String> {
     let mut rep = Report::new("C04", tier, "model_checking");
     std_assumptions(&mut rep);
     let nets = core_nets(3)?;
-    let (which, a_size, max_len, fam_n): (Vec<&str>, usize, usize, usize) = if tier == "quick" { (vec!["con2", "asy2", "imp1"], 12, 2, 2) } else { (vec!["con2", "asy2", "imp1", "unc2", "tog2", "inp2"], 26, 3, 3) };
+    let (which, a_size, max_len, fam_n): (Vec<&str>, usize, usize, usize) = if tier == "quick" { (vec!["con2", "asy2", "imp1"], 14, 2, 2) } else { (vec!["con2", "asy2", "imp1", "unc2", "tog2", "inp2"], 28, 3, 3) };
     for b in nets.iter().filter(|b| which.contains(&b.name.as_str())) {
         sem::note_network(&mut rep, b);
         let fams = label_families(b, 4);
@@ -147,7 +147,7 @@ pub fn run(tier: &str) -> Result<Report, String> {
             run_model(&mut rep, ctx.clone(), &alpha, max_len, "collision");
             if tier != "quick" && b.name == "con2" && desc == "mixed" {
                 // deeper batches over a 6-formula core alphabet
-                let core: Vec<F> = [0usize, 2, 3, 7, 11, 5, 13].iter().map(|i| alpha[*i].clone()).collect();
+                let core: Vec<F> = [0usize, 2, 3, 7, 11, 5, 15].iter().map(|i| alpha[*i].clone()).collect();
                 run_model(&mut rep, ctx.clone(), &core, 4, "core7-len4");
             }
         }
